@@ -500,6 +500,15 @@ def _inverse_lookup(fn_or_cls, allow_decorators=False):
   return None
 
 
+def _rename_selector_in_config(old_selector, new_selector):
+  """Moves what has been bound or recorded for `old_selector` to its new name."""
+  with _OPERATIVE_CONFIG_LOCK:
+    for config in (_CONFIG, _OPERATIVE_CONFIG):
+      for scope, selector in list(config):
+        if selector == old_selector:
+          config[scope, new_selector] = config.pop((scope, selector))
+
+
 def _find_registered_methods(cls, selector):
   """Finds methods in `cls` that have been wrapped or registered with Gin."""
   registered_methods = {}
@@ -537,6 +546,7 @@ def _find_registered_methods(cls, selector):
       _REGISTRY.pop(old_selector)
       _REGISTRY[new_selector] = method_info
       _INVERSE_REGISTRY[method] = method_info
+      _rename_selector_in_config(old_selector, new_selector)
       registered_methods[name] = method_info.wrapper
     else:
       if _inverse_lookup(method, allow_decorators=True):
